@@ -7,6 +7,9 @@ import (
 	"io"
 	"net/http"
 	"net/http/httptest"
+	"reflect"
+	"runtime"
+	"sort"
 	"strconv"
 	"strings"
 	"sync"
@@ -28,6 +31,68 @@ type exec struct {
 	mtype string
 	req   *http.Request
 	resp  *http.Response
+	held  []*heldResult
+}
+
+// heldResult: something a dump function returned, kept exactly as returned (the slice itself / the request body
+// itself, not a copy) together with a copy of its bytes taken at that moment and the type of the dumped value.
+type heldResult struct {
+	mime    bool
+	mtype   string
+	data    []byte        // the returned slice (blob, MimeDump data); nil if body is set
+	body    io.ReadSeeker // the reader DumpToHTTPRequest put into the request, if it can be rewound
+	copy    []byte
+	tag     string
+	changed bool // sticky: the bytes differed from the copy at some point
+}
+
+const heldCap = 16
+
+func (e *exec) hold(h *heldResult) {
+	h.tag = e.tag
+	e.held = append(e.held, h)
+	if len(e.held) > heldCap {
+		e.held = e.held[1:]
+	}
+}
+
+func (h *heldResult) current() []byte {
+	if h.body != nil {
+		if _, err := h.body.Seek(0, io.SeekStart); err != nil {
+			return nil
+		}
+		b, _ := io.ReadAll(h.body)
+		return b
+	}
+	return h.data
+}
+
+// seekerOf finds the rewindable reader inside the body DumpToHTTPRequest installed (io.NopCloser around a
+// *bytes.Reader): the reader still reads the memory the package handed over.
+func seekerOf(body io.ReadCloser) io.ReadSeeker {
+	if s, ok := body.(io.ReadSeeker); ok {
+		return s
+	}
+	v := reflect.ValueOf(body)
+	if v.Kind() == reflect.Struct && v.NumField() == 1 && v.Field(0).CanInterface() {
+		if s, ok := v.Field(0).Interface().(io.ReadSeeker); ok {
+			return s
+		}
+	}
+	return nil
+}
+
+// The two assignable package variables, as the package initialises them.
+var initSer, initComp = dsd.DefaultSerializationFormat, dsd.DefaultCompressionFormat
+
+func restoreCfg() {
+	dsd.DefaultSerializationFormat, dsd.DefaultCompressionFormat = initSer, initComp
+}
+
+// Close is called by hxlib after the last op of a case.
+func (e *exec) Close() error {
+	restoreCfg()
+	return nil
 }
 
 var (
@@ -54,6 +119,7 @@ func wireServer() *httptest.Server {
 }
 
 func newExec(*hxlib.Run) hxlib.Exec {
+	restoreCfg()
 	return &exec{tag: "S", val: &Subject{}, req: httptest.NewRequest(http.MethodPost, "http://verif.invalid/", nil)}
 }
 
@@ -173,7 +239,112 @@ func (e *exec) showDump(b []byte, err error) string {
 		return "err " + errClass(err, false)
 	}
 	e.blob = b
+	e.hold(&heldResult{data: b, copy: append([]byte(nil), b...)})
 	return "ok " + hxlib.Hex(b)
+}
+
+// loadHeld loads a held result with the function the property names for it, from the held memory itself.
+func (e *exec) loadHeld(h *heldResult, cur []byte) string {
+	t := newTarget(h.tag)
+	if h.mime {
+		format, err := dsd.MimeLoad(cur, h.mtype, t)
+		return e.showLoad(format, err, t)
+	}
+	format, err := dsd.Load(cur, t)
+	return e.showLoad(format, err, t)
+}
+
+// parResult: what one goroutine of a `par` op got for one of its items.
+type parResult struct {
+	data  []byte
+	mtype string
+	mime  bool
+	err   error
+}
+
+// par runs the items concurrently, goroutine g on vals[g], `rounds` times each, keeps everything returned, and
+// only after all goroutines are done loads every result. Output: per goroutine and item the set of distinct
+// load results (one element if the functions are what the property says they are).
+func (e *exec) par(tag string, vals []any, rounds int, items []string) string {
+	type one struct{ res [][]parResult }
+	out := make([]one, len(vals))
+	var start, done sync.WaitGroup
+	start.Add(1)
+	for g := range vals {
+		out[g].res = make([][]parResult, len(items))
+		done.Add(1)
+		go func(g int) {
+			defer done.Done()
+			arg := dumpArg(tag, vals[g])
+			start.Wait()
+			for r := 0; r < rounds; r++ {
+				for k, it := range items {
+					var pr parResult
+					func() {
+						defer func() {
+							if x := recover(); x != nil {
+								pr.err = fmt.Errorf("PANIC %v", x)
+							}
+						}()
+						switch it[0] {
+						case 'd':
+							fm, _ := parseU8(it[1:])
+							pr.data, pr.err = dsd.Dump(arg, fm)
+						case 'c':
+							a, b, _ := strings.Cut(it[1:], ".")
+							fm, _ := parseU8(a)
+							cm, _ := parseU8(b)
+							pr.data, pr.err = dsd.DumpAndCompress(arg, fm, cm)
+						case 'm':
+							pr.mime = true
+							pr.data, pr.mtype, _, pr.err = dsd.MimeDump(arg, string(hxlib.UnHex(it[1:])))
+						}
+					}()
+					out[g].res[k] = append(out[g].res[k], pr)
+				}
+				if r%4 == 3 {
+					runtime.Gosched()
+				}
+			}
+		}(g)
+	}
+	start.Done()
+	done.Wait()
+	var sb strings.Builder
+	for g := range vals {
+		for k := range items {
+			set := map[string]bool{}
+			for _, pr := range out[g].res[k] {
+				var s string
+				switch {
+				case pr.err != nil && strings.HasPrefix(pr.err.Error(), "PANIC"):
+					s = strings.ReplaceAll(pr.err.Error(), " ", "_")
+				case pr.err != nil:
+					s = "err " + errClass(pr.err, false)
+				default:
+					t := newTarget(tag)
+					if pr.mime {
+						format, err := dsd.MimeLoad(pr.data, pr.mtype, t)
+						s = e.showLoad(format, err, t) + " ct=" + hxlib.Hex([]byte(pr.mtype))
+					} else {
+						format, err := dsd.Load(pr.data, t)
+						s = e.showLoad(format, err, t)
+					}
+				}
+				set[s] = true
+			}
+			var ks []string
+			for s := range set {
+				ks = append(ks, s)
+			}
+			sort.Strings(ks)
+			if sb.Len() > 0 {
+				sb.WriteString(" | ")
+			}
+			fmt.Fprintf(&sb, "g%d.%d %s", g, k, strings.Join(ks, " / "))
+		}
+	}
+	return sb.String()
 }
 
 // bodyOf reads the request body (if any) and puts an equal one back.
@@ -247,6 +418,55 @@ func (e *exec) Do(line string) string {
 		}
 		return "ok"
 
+	// ---- the package variables; held results ----------------------------------------------------------------
+	case f[0] == "cfg" && len(f) == 3:
+		a, ok1 := parseU8(f[1])
+		b, ok2 := parseU8(f[2])
+		if !ok1 || !ok2 {
+			return "bad-op"
+		}
+		dsd.DefaultSerializationFormat, dsd.DefaultCompressionFormat = a, b
+		return "ok"
+	case f[0] == "held" && len(f) == 1:
+		if len(e.held) == 0 {
+			return "none"
+		}
+		var parts []string
+		for _, h := range e.held {
+			cur := h.current()
+			if !bytes.Equal(cur, h.copy) {
+				h.changed = true
+			}
+			res := e.loadHeld(h, cur)
+			if !bytes.Equal(h.current(), h.copy) {
+				h.changed = true // the load function wrote into its input
+			}
+			flag := "same"
+			if h.changed {
+				flag = "changed"
+			}
+			parts = append(parts, flag+" "+res)
+		}
+		return strings.Join(parts, " | ")
+	case f[0] == "par" && len(f) >= 5:
+		// par <rounds> <tag> <items,comma separated> <valhex>...   (implementation + monitor only)
+		rounds, err := strconv.Atoi(f[1])
+		if err != nil || rounds < 1 || rounds > 1000 {
+			return "bad-op"
+		}
+		var vals []any
+		for _, h := range f[4:] {
+			if !isHex(h) {
+				return "bad-op"
+			}
+			v, err := parseValue(f[2], hxlib.UnHex(h))
+			if err != nil {
+				return "bad-op"
+			}
+			vals = append(vals, v)
+		}
+		return e.par(f[2], vals, rounds, strings.Split(f[3], ","))
+
 	// ---- dsd.go / compression.go ------------------------------------------------------------------------
 	case f[0] == "dump" && len(f) == 2:
 		format, ok := parseU8(f[1])
@@ -305,6 +525,7 @@ func (e *exec) Do(line string) string {
 			return "err " + errClass(err, false)
 		}
 		e.mdata, e.mtype = data, mimeType
+		e.hold(&heldResult{mime: true, mtype: mimeType, data: data, copy: append([]byte(nil), data...)})
 		return fmt.Sprintf("ok %d %s %s", format, hxlib.Hex([]byte(mimeType)), hxlib.Hex(data))
 	case f[0] == "mimeload" && len(f) == 3:
 		a, ok1 := e.strOperand(f[1])
@@ -328,7 +549,20 @@ func (e *exec) Do(line string) string {
 		if err != nil {
 			st = "err " + errClass(err, false)
 		}
+		var orig io.ReadSeeker
+		if err == nil && e.req.Body != nil {
+			orig = seekerOf(e.req.Body) // before bodyOf replaces the body by a copy
+		}
 		present, body := bodyOf(e.req)
+		if ct, ok := e.req.Header["Content-Type"]; err == nil && present && ok && len(ct) > 0 {
+			h := &heldResult{mime: true, mtype: ct[0], copy: append([]byte(nil), body...)}
+			if orig != nil {
+				h.body = orig
+			} else {
+				h.data = body
+			}
+			e.hold(h)
+		}
 		return fmt.Sprintf("%s a=%s ct=%s body=%s", st, headerHex(e.req.Header, "Accept"), headerHex(e.req.Header, "Content-Type"), optHex(present, body))
 	case f[0] == "setreq" && len(f) == 4:
 		var body io.Reader
@@ -375,6 +609,9 @@ func (e *exec) Do(line string) string {
 		hdr := res.Header
 		e.resp = &http.Response{StatusCode: res.StatusCode, Header: hdr, Body: io.NopCloser(bytes.NewReader(body))}
 		e.resp.Request = e.req
+		if ct, ok := hdr["Content-Type"]; err == nil && ok && len(ct) > 0 {
+			e.hold(&heldResult{mime: true, mtype: ct[0], data: body, copy: append([]byte(nil), body...)})
+		}
 		return fmt.Sprintf("%s ct=%s body=%s", st, headerHex(hdr, "Content-Type"), hxlib.Hex(body))
 	case f[0] == "setresp" && len(f) == 3 && isHex(f[2]):
 		h := http.Header{}
